@@ -291,6 +291,18 @@ func (r *Relay) pipe(from, to net.Conn, up bool) {
 	_ = from.Close()
 }
 
+// Inject writes raw bytes towards the server on every relayed connection.
+func (r *Relay) Inject(b []byte) {
+	r.mu.Lock()
+	cs := append([]net.Conn(nil), r.conns...)
+	r.mu.Unlock()
+	for i, c := range cs {
+		if i%2 == 1 { // odd entries are the relay->server legs
+			_, _ = c.Write(b)
+		}
+	}
+}
+
 // Cut closes every relayed connection (the listener keeps accepting new ones).
 func (r *Relay) Cut() {
 	r.mu.Lock()
